@@ -22,6 +22,11 @@ VERIF = os.path.dirname(HERE)
 sys.path.insert(0, HERE)
 
 import build  # noqa: E402
+
+# evidence/ and replays/ under /verif always come from /repo itself; a run against another tree
+# (VERIF_REPO, used to try seeded changes) writes them to a scratch directory instead
+OUT = os.environ.get('VERIF_OUT') or (VERIF if os.path.realpath(build.repo_path()) == '/repo'
+                                      else '/tmp/verif-out')
 import sx  # noqa: E402
 from driver import Driver  # noqa: E402
 
@@ -106,10 +111,10 @@ def matches(entry_match, key):
 
 
 def write_replay(pid, data):
-    os.makedirs(os.path.join(VERIF, 'replays'), exist_ok=True)
+    os.makedirs(os.path.join(OUT, 'replays'), exist_ok=True)
     blob = json.dumps(jsonable(data), sort_keys=True, indent=1)
     h = hashlib.sha256(blob.encode()).hexdigest()[:12]
-    path = os.path.join(VERIF, 'replays', '%s-%s.json' % (pid, h))
+    path = os.path.join(OUT, 'replays', '%s-%s.json' % (pid, h))
     with open(path, 'w') as f:
         f.write(blob + '\n')
     return path
@@ -329,8 +334,8 @@ def main(argv):
         'violations': len(new_viol) + (1 if (exit_code == 1 and not new_viol) else 0),
     }
     ev['coverage'].update(jsonable(res.extra))
-    os.makedirs(os.path.join(VERIF, 'evidence'), exist_ok=True)
-    with open(os.path.join(VERIF, 'evidence', '%s.json' % pid), 'w') as f:
+    os.makedirs(os.path.join(OUT, 'evidence'), exist_ok=True)
+    with open(os.path.join(OUT, 'evidence', '%s.json' % pid), 'w') as f:
         json.dump(ev, f, indent=1, sort_keys=True)
         f.write('\n')
     print('%s tier=%s seed=%d: obligations %d/%d, %d evaluations (%d distinct non-trivial), '
